@@ -242,11 +242,30 @@ fn ref_case(ctx: &mut Ctx, idx: u64) {
         if m.is_stopped() {
             viol!("stopped_inside_grammar", json!({"pos": pos}));
         }
-        let mask = match m.compute_mask() {
-            Ok(x) => x,
+        // denoted set at a token-reference position (union over the alternatives still alive)
+        let denoted: Option<BTreeSet<u32>> = match &alts[live[0]][pos] {
+            Atom::Toks(_, _) => {
+                let mut want: BTreeSet<u32> = BTreeSet::new();
+                for &a in &live {
+                    if let Atom::Toks(_, s) = &alts[a][pos] {
+                        want.extend(s.iter().copied());
+                    }
+                }
+                Some(want)
+            }
+            _ => None,
+        };
+        if denoted.as_ref().is_some_and(|w| w.is_empty()) {
+            // a reference that denotes no token at all (e.g. <[^0-MAX]>): nothing to compare
+            ctx.rep.inc("empty_denoted_set_skipped");
+            return;
+        }
+        let got: BTreeSet<u32> = match m.compute_mask() {
+            Ok(mask) => mask_list(&mask, v.n()).into_iter().collect(),
+            // at a token reference a failing mask is an empty mask: judged against the denoted set below
+            Err(_) if denoted.is_some() => BTreeSet::new(),
             Err(_) => viol!("mask_error", json!({"pos": pos})),
         };
-        let got: BTreeSet<u32> = mask_list(&mask, v.n()).into_iter().collect();
         ctx.rep.inc("positions_checked");
         match &alts[live[0]][pos] {
             Atom::Text(t) => {
@@ -263,12 +282,7 @@ fn ref_case(ctx: &mut Ctx, idx: u64) {
                 hist.push(tok);
             }
             Atom::Toks(_, _) => {
-                let mut want: BTreeSet<u32> = BTreeSet::new();
-                for &a in &live {
-                    if let Atom::Toks(_, s) = &alts[a][pos] {
-                        want.extend(s.iter().copied());
-                    }
-                }
+                let want: BTreeSet<u32> = denoted.clone().unwrap();
                 ctx.rep.add("token_ids_compared", v.n() as u64);
                 if got != want {
                     viol!("token_reference_mask_differs_from_denoted_set", json!({"pos": pos, "refs": live.iter().map(|&a| match &alts[a][pos] { Atom::Toks(s, _) => s.clone(), _ => String::new() }).collect::<Vec<_>>(),
